@@ -607,17 +607,139 @@ theorem withCores_none_simple {cands : List Cand} {cc : List CandC} (h : withCor
                 simp [twoParts, hullOf, Loc.parts]
         · exact ih hr x e
 
+/-- what the two walks of `_find_cross_origin_interleaved` collect: the starting group, plus
+    protoclusters of the list whose core overlaps the connected origin-spanning core -/
+theorem walk_desc (core : Loc) (total : Nat) (l cg f : List Proto) :
+    (∀ p, p ∈ (walk core total l cg f).1 → p ∈ cg ∨ (p ∈ l ∧ locationsOverlap p.core core = true)) ∧
+    (∀ p, p ∈ (walk core total l cg f).2 → p ∈ f ∨ (p ∈ l ∧ locationsOverlap p.core core = true)) := by
+  induction l generalizing cg f with
+  | nil => simp only [walk]; exact ⟨fun p hp => Or.inl hp, fun p hp => Or.inl hp⟩
+  | cons c rest ih =>
+    simp only [walk]
+    split
+    · exact ⟨fun p hp => Or.inl hp, fun p hp => Or.inl hp⟩
+    · split
+      · exact ⟨fun p hp => Or.inl hp, fun p hp => Or.inl hp⟩
+      · rename_i hov
+        have hov' : locationsOverlap c.core core = true := by simpa using hov
+        obtain ⟨a, b⟩ := ih (if cg.contains c = true then cg else cg ++ [c]) (if f.contains c = true then f else f ++ [c])
+        refine ⟨?_, ?_⟩
+        · intro p hp
+          rcases a p hp with h | ⟨h, ho⟩
+          · split at h
+            · exact Or.inl h
+            · rcases List.mem_append.1 h with h1 | h1
+              · exact Or.inl h1
+              · have : p = c := by simpa using h1
+                rw [this]; exact Or.inr ⟨List.mem_cons_self, hov'⟩
+          · exact Or.inr ⟨List.mem_cons_of_mem _ h, ho⟩
+        · intro p hp
+          rcases b p hp with h | ⟨h, ho⟩
+          · split at h
+            · exact Or.inl h
+            · rcases List.mem_append.1 h with h1 | h1
+              · exact Or.inl h1
+              · have : p = c := by simpa using h1
+                rw [this]; exact Or.inr ⟨List.mem_cons_self, hov'⟩
+          · exact Or.inr ⟨List.mem_cons_of_mem _ h, ho⟩
+
+/-- the group the origin-crossing step may add: members of candidates whose combined core spans
+    the origin, and protoclusters whose core overlaps the connected span of those cores — with at
+    least one such protocluster in it -/
+def CrossGroup (cc : List CandC) (un : List Proto) (wrap : Option Int) (g : List Proto) : Prop :=
+  ∃ core u0, connect ((cc.filter fun c => twoParts c.2).map (·.2)) wrap = .ok core ∧
+    u0 ∈ un ∧ locationsOverlap u0.core core = true ∧ u0 ∈ g ∧
+    ∀ e, e ∈ g → (∃ x, x ∈ cc ∧ twoParts x.2 = true ∧ e ∈ x.1.members) ∨ (e ∈ un ∧ locationsOverlap e.core core = true)
+
+theorem findCross_desc {cc : List CandC} {un : List Proto} {groups groups' : List (List Proto)} {wrap : Option Int}
+    {found : List Proto} (h : findCrossOriginInterleaved cc un groups wrap = .ok (found, groups')) :
+    ∀ g, g ∈ groups' → g ∈ groups ∨ CrossGroup cc un wrap g := by
+  unfold findCrossOriginInterleaved at h
+  split at h
+  · injection h with h; injection h with h1 h2; subst h1; subst h2
+    exact fun g hg => Or.inl hg
+  · split at h
+    · injection h with h; injection h with h1 h2; subst h1; subst h2
+      exact fun g hg => Or.inl hg
+    · dsimp only at h
+      split at h
+      · cases h
+      · rename_i core hcore
+        split at h
+        · cases h
+        · rename_i hcg0
+          generalize hcg0def : dedup (List.flatMap (fun c =>
+              if (List.filter (fun p => bridgesOrigin p.core) c.1.members).isEmpty = true then c.1.members
+              else List.filter (fun p => bridgesOrigin p.core) c.1.members)
+              (List.filter (fun c => twoParts c.2) cc)) = cg0 at h hcg0
+          generalize hback : walk core un.length (List.drop 1 un).reverse cg0 [] = back at h
+          generalize hfwd : walk core un.length un back.1 back.2 = fwd at h
+          have hb := walk_desc core un.length (List.drop 1 un).reverse cg0 []
+          rw [hback] at hb
+          have hf := walk_desc core un.length un back.1 back.2
+          rw [hfwd] at hf
+          have hbs := walk_spec core un.length (List.drop 1 un).reverse cg0 []
+          rw [hback] at hbs
+          have hfs := walk_spec core un.length un back.1 back.2
+          rw [hfwd] at hfs
+          have hfound_in : ∀ p, p ∈ fwd.2 → p ∈ fwd.1 := hfs.2 (hbs.2 (fun p hp => by cases hp))
+          have hcg0_from : ∀ q, q ∈ cg0 → ∃ c, c ∈ cc ∧ twoParts c.2 = true ∧ q ∈ c.1.members := by
+            intro q hq
+            rw [← hcg0def] at hq
+            have hq := mem_dedup.1 hq
+            obtain ⟨c, hc, hqc⟩ := List.mem_flatMap.1 hq
+            obtain ⟨hc1, hc2⟩ := List.mem_filter.1 hc
+            refine ⟨c, hc1, hc2, ?_⟩
+            split at hqc
+            · exact hqc
+            · exact (List.mem_filter.1 hqc).1
+          have hfound_desc : ∀ p, p ∈ fwd.2 → p ∈ un ∧ locationsOverlap p.core core = true := by
+            intro p hp
+            rcases hf.2 p hp with h1 | h1
+            · rcases hb.2 p h1 with h2 | ⟨h2, ho⟩
+              · cases h2
+              · exact ⟨List.mem_of_mem_drop (List.mem_reverse.1 h2), ho⟩
+            · exact h1
+          have helem : ∀ e, e ∈ fwd.1 → (∃ x, x ∈ cc ∧ twoParts x.2 = true ∧ e ∈ x.1.members) ∨
+              (e ∈ un ∧ locationsOverlap e.core core = true) := by
+            intro e he
+            rcases hf.1 e he with h1 | h1
+            · rcases hb.1 e h1 with h2 | ⟨h2, ho⟩
+              · exact Or.inl (hcg0_from e h2)
+              · exact Or.inr ⟨List.mem_of_mem_drop (List.mem_reverse.1 h2), ho⟩
+            · exact Or.inr h1
+          split at h
+          · injection h with h; injection h with h1 h2; subst h1; subst h2
+            exact fun g hg => Or.inl hg
+          · rename_i hfne
+            split at h
+            · injection h with h; injection h with h1 h2; subst h1; subst h2
+              exact fun g hg => Or.inl hg
+            · split at h
+              · injection h with h; injection h with h1 h2; subst h1; subst h2
+                intro g hg
+                rcases List.mem_append.1 hg with h1 | h1
+                · exact Or.inl h1
+                · right
+                  have : g = fwd.1 := by simpa using h1
+                  subst this
+                  have hne : fwd.2 ≠ [] := by simpa using hfne
+                  obtain ⟨u0, hu0⟩ := List.exists_mem_of_ne_nil _ hne
+                  exact ⟨core, u0, hcore, (hfound_desc u0 hu0).1, (hfound_desc u0 hu0).2, hfound_in u0 hu0, helem⟩
+              · injection h with h; injection h with h1 h2; subst h1; subst h2
+                exact fun g hg => Or.inl hg
+
 /-- `_find_interleaved`, relative to the candidates' combined cores `cc`:
     completeness on every record (the sorted scan with its early `break` and the all-candidates
-    scan find every overlapping pair of units), soundness when no combined core spans the origin
-    (always on a linear record) -/
+    scan find every overlapping pair of units); every merged set is the union of two overlapping
+    units or the group of the origin-crossing step (`CrossGroup`) -/
 theorem findInterleaved_groups {clusters : List Proto} {cands : List Cand} {wrap : Option Int} {cc : List CandC}
     {ig : List (List Proto)} {un : List Proto} (h : findInterleaved clusters cands wrap = .ok (ig, un))
     (hcc : withCores wrap cands = .ok cc) (hn : clusters.Nodup) (hne : ∀ p, p ∈ clusters → p.core.PartsNonEmpty) :
     ∃ G, ig = mergeSets G ∧
       (∀ g', g' ∈ overlapGroups (interleaveUnits clusters cc) → ∃ g, g ∈ G ∧ ∀ x, x ∈ g' → x ∈ g) ∧
-      ((∀ x, x ∈ cc → twoParts x.2 = false) →
-        ∀ g, g ∈ G → ∃ g', g' ∈ overlapGroups (interleaveUnits clusters cc) ∧ ∀ x, x ∈ g → x ∈ g') := by
+      (∀ g, g ∈ G → (∃ g', g' ∈ overlapGroups (interleaveUnits clusters cc) ∧ ∀ x, x ∈ g → x ∈ g') ∨
+        CrossGroup cc clusters wrap g) := by
   unfold findInterleaved at h
   dsimp only at h
   have withCores_length : ∀ (cands : List Cand) (cc : List CandC), withCores wrap cands = .ok cc → cc.length = cands.length := by
@@ -670,7 +792,7 @@ theorem findInterleaved_groups {clusters : List Proto} {cands : List Cand} {wrap
           · cases hb
           · exact hab
         | cons y r => simp at hcc1
-    · intro _ g hg
+    · intro g hg
       exfalso
       have : (findInterleavedCandidates [] ++ interleavedPairs (sortBy coreStartLt []) ++
           List.flatMap (fun cluster => List.map (fun c : CandC => dedup (c.1.members ++ [cluster]))
@@ -741,19 +863,15 @@ theorem findInterleaved_groups {clusters : List Proto} {cands : List Cand} {wrap
             apply List.mem_append.2; left
             apply List.mem_append.2; right
             exact interleavedPairs_complete hne' hsorted h1 (by rw [locationsOverlap_comm]; exact ho')
-      · intro hno g hg
-        -- without an origin-spanning combined core the cross-origin step adds nothing
-        have hgroups : groups = findInterleavedCandidates cc ++ interleavedPairs (sortBy coreStartLt clusters) ++
-            List.flatMap (fun cluster => List.map (fun c => dedup (c.1.members ++ [cluster]))
-              (List.filter (fun c => locationsOverlap c.2 cluster.core) cc)) (sortBy coreStartLt clusters) := by
-          unfold findCrossOriginInterleaved at hx
-          split at hx
-          · injection hx with hx; injection hx with _ e; exact e.symm
-          · have : (cc.any fun c => twoParts c.2) = false := by
-              rw [List.any_eq_false]; intro x hxc; simp [hno x hxc]
-            rw [if_pos (by simp [this])] at hx
-            injection hx with hx; injection hx with _ e; exact e.symm
-        rw [hgroups] at hg
+      · intro g hg0
+        refine (findCross_desc hx g hg0).elim (fun hg => Or.inl ?_) (fun hdesc => Or.inr ?_)
+        rotate_left
+        · obtain ⟨core, u0, h1, h2, h3, h4, h5⟩ := hdesc
+          refine ⟨core, u0, h1, (hbm u0).1 h2, h3, h4, ?_⟩
+          intro e he
+          rcases h5 e he with h6 | ⟨h6, h7⟩
+          · exact Or.inl h6
+          · exact Or.inr ⟨(hbm e).1 h6, h7⟩
         rcases List.mem_append.1 hg with h12 | h3
         · rcases List.mem_append.1 h12 with h1 | h2
           · simp only [findInterleavedCandidates, List.mem_append] at h1
